@@ -278,3 +278,12 @@ def run(ctx):
     if fc:
         ct = fc.calls("re:^bb8::api::Builder::connection_timeout$")
         r6.check(bool(ct) and "connect_timeout" in fields_of(fc, ct[0].args[1], taint=True), "connect-timeout", "server connects are bounded by connect_timeout (bb8 connection_timeout)", "bb8 connection_timeout no longer derives from connect_timeout")
+        # `within the configured timeouts`: the value in force for a user is the user's own where he has one (then the pool's, then the general one)
+        from common import user_override_precedence_findings
+        for n_, ok_, det_ in user_override_precedence_findings(F) or []:
+            if n_ == "connect_timeout":
+                if ok_ is None:
+                    r6.missing("the decision between User.connect_timeout and Pool.connect_timeout in from_config")
+                else:
+                    r6.check(ok_, "connect-timeout:users-own-first", "the connect timeout a user's servers are given is the user's own where set (%s)" % det_,
+                             "in from_config %s: a user's connect_timeout is overruled by the pool's - a dead or hung replica is given up (and banned) after the pool's timeout, not the one configured for that user" % det_)
